@@ -22,7 +22,7 @@ func init() {
 	core.Register(&core.Prop{
 		ID:    "C14",
 		Level: "exploration",
-		Rule: "sequential cases: EVERY operation sequence of length <= L (quick 4, thorough 5) over the 24-operation alphabet {Put(used|unused, base in {0,1,2}), Get(k), Peek(k), Len, Cap, Resize(1..3), Drop(0..2), Free(0..3)} on LRU, FIFO and Random of capacity 1..3, bare and inside StatsRecorder, plus random histories of length 60 with bases {0..5}; the harness owns blocks as the reader does (blocks handed back by Put are overwritten with another member before being offered again; blocks the model says the cache holds are never touched; blocks from Get are Put back as they are). " +
+		Rule: "sequential cases: EVERY operation sequence of length <= L (quick 4, thorough 5) over the 24-operation alphabet {Put(used|unused, base in {0,1,2}), Get(k), Peek(k), Len/Cap, Resize(0..3), Drop(0..2), Free(0..3)} on LRU, FIFO and Random of capacity 1..3, bare and inside StatsRecorder, plus random histories of length 60 with bases {0..5}; the harness owns blocks as the reader does (blocks handed back by Put are overwritten with another member before being offered again; blocks the model says the cache holds are never touched; blocks from Get are Put back as they are). " +
 			"Oracle: a policy-level reference model updated from the returned values: Len<=Cap, refusal of unused blocks when full, victim is an unused block if one is held else (LRU/FIFO) the earliest Put, Peek/Len/Cap consistent with Get, Get/Peek never yield a block of another base, Resize/Drop/Free post-conditions, StatsRecorder counters equal the counts of returned values; every call returns (runtime deadlock detector). " +
 			"concurrent cases: 2..4 goroutines x 30..60 operations on one cache, every operation recorded at the client boundary with call/return stamps from one atomic counter, checked for linearizability with porcupine against the same model (nondeterministic for Resize/Drop victims); the same workload under the race detector. " +
 			"distinct_nontrivial counts distinct sequential histories that contain >= 1 Put and >= 1 other operation, and distinct concurrent histories with >= 2 overlapping operations.",
@@ -31,7 +31,7 @@ func init() {
 		Run:         c14Run,
 		Exhaustive:  true,
 		ExhaustNote: "sequential histories up to the stated length are enumerated completely; random and concurrent histories are samples",
-		Assumptions: []string{"Resize(0) is not exercised (the constructors refuse capacity 0)", "in concurrent histories blocks are immutable (no recycling), recycling is covered by the sequential cases"},
+		Assumptions: []string{"in concurrent histories blocks are immutable (no recycling), recycling is covered by the sequential cases"},
 		TimeoutS:    map[string]int{"quick": 900, "thorough": 3400},
 	})
 }
@@ -368,6 +368,9 @@ func (d *seqDriver) put(base int64, used bool, reuseLoan bool) {
 			d.bad("put-unretained-eviction", "Put returned (%s,false): a block other than the one offered came back although nothing was retained", blkName(evs, ev))
 			return
 		}
+		if m.cap == 0 {
+			return // nothing can be retained
+		}
 		if dup < 0 && len(m.held) < m.cap {
 			d.bad("put-refused-with-room", "Put of #%d (base %d) was refused although the cache holds %d of %d blocks and none with that base", sb.id, sb.base, len(m.held), m.cap)
 		} else if dup < 0 && sb.used {
@@ -376,6 +379,10 @@ func (d *seqDriver) put(base int64, used bool, reuseLoan bool) {
 		return
 	}
 	// retained
+	if m.cap == 0 {
+		d.bad("put-retained-at-capacity-0", "Put of #%d was retained by a cache resized to capacity 0", sb.id)
+		return
+	}
 	if heldSelf {
 		d.bad("put-double-retain", "Put retained block #%d which the cache already held", sb.id)
 		return
@@ -607,8 +614,10 @@ func (d *seqDriver) apply(op int) {
 		d.get(int64(op - 6))
 	case op < 12:
 		d.peek(int64(op - 9))
-	case op == 12, op == 13:
+	case op == 12:
 		d.lencap()
+	case op == 13:
+		d.resize(0) // a cache of capacity 0 retains nothing
 	case op < 17:
 		d.resize(op - 13)
 	case op < 20:
@@ -689,7 +698,7 @@ func c14Run(c core.Case) *core.Result {
 				case x < 82:
 					d.lencap()
 				case x < 88:
-					d.resize(1 + rng.Intn(4))
+					d.resize(rng.Intn(5))
 				case x < 94:
 					d.drop(rng.Intn(3))
 				default:
